@@ -2638,6 +2638,13 @@ def namespace_to_flowir(
                 name = "-".join((comp.step_name, number_to_roman_like_numeral(prior)))
 
             match = pattern_name.fullmatch(name)
+            if match is None:
+                # VV: the names of templates are validated when the namespace is parsed, the names of steps are not
+                raise experiment.model.errors.DSLInvalidError.from_errors([
+                    experiment.model.errors.DSLInvalidFieldError(
+                        location=comp.scope.dsl_location(),
+                        underlying_error=ValueError(f"The name of step {name} cannot be the name of a component (it "
+                                                    f"must match the pattern {SignatureNamePattern})"))])
             match_groups = match.groupdict()
             comp_id = (int(match_groups.get("stage") or 0), match_groups["name"])
 
